@@ -129,18 +129,18 @@ def ref_case(chk, jobs, meta, mapping, nso, utd, ne, spin, hist=False):
                       dict(info, kind="ref", mapping=mapping, nso=nso, utd=utd))
 
 
-def vec_case(chk, jobs, meta, mapping, nso, utd, vec, hist=False, first=None):
+def vec_case(chk, jobs, meta, mapping, nso, utd, vec, hist=False, first=None, container="array"):
     """first = (mapping1, utd1): the SAME caller array is first encoded with that configuration, then with (mapping, utd);
     the second result is recorded and must encode the occupation the caller wrote into the array."""
     from tangelo.toolboxes.qubit_mappings.statevector_mapping import get_mapped_vector, vector_to_circuit
     import numpy as np
-    info = {"occvec": list(vec), "hist": hist, "first": list(first) if first else None}
+    info = {"occvec": list(vec), "hist": hist, "first": list(first) if first else None, "container": container}
     try:
         with warnings.catch_warnings():
             warnings.simplefilter("ignore")
             if hist:        # an earlier caller overwrote the array it was handed
                 edit_in_place(get_mapped_vector(np.array(vec, dtype=int), mapping, up_then_down=utd))
-            user_vec = np.array(vec, dtype=int)
+            user_vec = as_container(vec, container)
             if first:
                 get_mapped_vector(user_vec, first[0], up_then_down=first[1])
             mv = get_mapped_vector(user_vec, mapping, up_then_down=utd)
@@ -169,6 +169,55 @@ def frame_targets():
     t += [("vector_to_circuit", sm.vector_to_circuit), ("do_bk_transform", sm.do_bk_transform),
           ("do_jkmn_transform", sm.do_jkmn_transform), ("do_scbk_transform", lambda v: sm.do_scbk_transform(v, len(v)))]
     return t
+
+
+CONTAINERS = ("list", "tuple", "array", "int8", "bool", "npint-list")
+
+
+def as_container(vec, container):
+    """the same occupation as the containers a caller may hold it in (documented: 'list of int' / 'array of int')"""
+    import numpy as np
+    return {"list": lambda: list(vec), "tuple": lambda: tuple(vec), "array": lambda: np.array(vec, dtype=int),
+            "int8": lambda: np.array(vec, dtype=np.int8), "bool": lambda: np.array(vec, dtype=bool),
+            "npint-list": lambda: [np.int64(x) for x in vec]}[container]()
+
+
+def result_bits(res):
+    """a function result as a list of ints (a Circuit is read as its X-gate bit vector)"""
+    if hasattr(res, "width") and hasattr(res, "_gates"):
+        bits, bad, width = read_circuit(res)
+        return bits + [2 * bad]
+    out = []
+    for x in res:
+        f = float(x)
+        out.append(int(f) if f == int(f) else -7)
+    return out
+
+
+def container_case(chk, jobs, meta, fn_name, fn, vec, container):
+    """the result for this container must be identical to the result for an int ndarray (whose spec-correctness the vec
+    records decide), and the caller's argument must be untouched; both equalities are judged by TLC (kind "frame")."""
+    import copy as _copy
+    arg = as_container(vec, container)
+    before = [int(x) for x in arg]
+    try:
+        with warnings.catch_warnings():
+            warnings.simplefilter("ignore")
+            ref = result_bits(fn(as_container(vec, "array")))
+            got = result_bits(fn(arg))
+    except Exception as e:
+        if container in ("list", "tuple", "array"):
+            chk.violation("container:%s:%s:exception" % (fn_name, container), "%s: %s" % (type(e).__name__, e),
+                          {"kind": "container", "fn": fn_name, "container": container, "occvec": list(vec), "nso": len(vec),
+                           "mapping": fn_name, "utd": container})
+        return
+    after = [int(x) for x in arg]
+    for what, a, b in (("result", ref, got), ("argument", before, after)):
+        jid = len(jobs) + 1
+        jobs.append({"id": jid, "kind": "frame", "nso": len(vec), "n": 0, "x": [], "bad": 0, "Q": [], "ne": 0, "spin": 0, "dflt": True,
+                     "occvec": [], "before": a, "after": b})
+        meta[jid] = {"kind": "frame", "mapping": fn_name, "utd": container, "nso": len(vec), "occvec": list(vec), "fn": fn_name,
+                     "container": container, "what": what, "containers": True}
 
 
 def frame_case(chk, jobs, meta, fn_name, fn, vec, container):
@@ -242,6 +291,23 @@ def gen_jobs(chk, jobs, meta, rng=None):
             for c2 in configs():
                 for vec in pvecs:
                     vec_case(chk, jobs, meta, c2[0], nso, c2[1], vec, first=c1)
+    # ---- container types of the occupation vector at every public entry point (list, tuple, int / int8 / bool arrays,
+    #      lists of numpy integers): spec-correct result of get_mapped_vector for every container (vec records), identical
+    #      results of every other encoder function, arguments untouched
+    import importlib
+    jk = importlib.import_module("tangelo.toolboxes.qubit_mappings.jkmn")
+    from tangelo.toolboxes.qubit_mappings import statevector_mapping as sm
+    extra = [("jkmn_prep_vector", jk.jkmn_prep_vector)]
+    for nso in ([2, 4, 6] if quick else [2, 4, 6, 8]):
+        vecs = list(itertools.product((0, 1), repeat=nso))
+        cvecs = vecs if len(vecs) <= 16 else rng.sample(vecs, 6 if quick else 16)
+        for vec in cvecs:
+            for container in CONTAINERS:
+                if container != "array":
+                    for c in configs():
+                        vec_case(chk, jobs, meta, c[0], nso, c[1], vec, container=container)
+                    for fn_name, fn in targets + extra:
+                        container_case(chk, jobs, meta, fn_name, fn, vec, container)
     return n_ref, n_plain
 
 
@@ -321,7 +387,8 @@ def run(chk):
     for j in jobs:
         m = meta[j["id"]]
         v = verdicts[j["id"]]
-        tag = "-after-edit" if m.get("hist") else ("-second-encoding" if m.get("first") else "")
+        tag = "-after-edit" if m.get("hist") else ("-second-encoding" if m.get("first") else
+                                                   ("-container-%s" % m["container"] if m.get("container", "array") != "array" else ""))
         s = stats.setdefault("%s%s:%s" % (m["kind"], tag, m["mapping"] if m["kind"] != "frame" else m["fn"].split(":")[0]), [0, 0])
         s[0] += 1
         chk.add_traces(1, m["kind"])
@@ -333,10 +400,13 @@ def run(chk):
         key = "%s%s:%s:utd=%s:%s" % (m["kind"], tag, m["mapping"], m["utd"], v)
         if m["kind"] == "frame":
             key = "frame:%s:%s:%s" % (m["fn"], m["container"], v)
+            if m.get("containers"):
+                key = "container:%s:%s:%s-differs" % (m["fn"], m["container"], m["what"])
         per_key[key] = per_key.get(key, 0) + 1
         if (per_key[key] > 2 or len(chk.violations) >= 48) and chk.match_known(key) is None:
             continue        # the harness writes at most 50 replay files: every printed VIOLATION must have one
-        detail = ("the caller's vector %s was changed to %s by %s" % (j["before"], j["after"], m["fn"])) if m["kind"] == "frame" else \
+        detail = ("%s(%s as %s): %s %s vs %s" % (m["fn"], m["occvec"], m["container"], m.get("what", "argument"), j["before"], j["after"])) \
+            if m["kind"] == "frame" else \
             "state x=%s (n=%d) vs the code's encodings of the %d number operators: %s  %s" % (j["x"], j["n"], j["nso"], v, m)
         chk.violation(key, detail, m)
     wrong = [(c["id"], verdicts[c["id"]], e) for c, e in ctl if verdicts[c["id"]] != e]
@@ -369,14 +439,19 @@ def replay(chk, rec):
     c2 = check.Check("C05", ["quick"])
     c2.known = []
     jobs, meta = [], {}
-    if m["kind"] == "frame":
+    if m["kind"] in ("frame", "container") and (m.get("containers") or m["kind"] == "container"):
+        import importlib
+        jk = importlib.import_module("tangelo.toolboxes.qubit_mappings.jkmn")
+        fn = dict(frame_targets() + [("jkmn_prep_vector", jk.jkmn_prep_vector)])[m["fn"]]
+        container_case(c2, jobs, meta, m["fn"], fn, tuple(m["occvec"]), m["container"])
+    elif m["kind"] == "frame":
         fn = dict(frame_targets())[m["fn"]]
         frame_case(c2, jobs, meta, m["fn"], fn, tuple(m["occvec"]), m["container"])
     elif m["kind"] == "ref":
         ref_case(c2, jobs, meta, m["mapping"], m["nso"], m["utd"], m["ne"], m["spin"], hist=m.get("hist", False))
     else:
         vec_case(c2, jobs, meta, m["mapping"], m["nso"], m["utd"], tuple(m["occvec"]), hist=m.get("hist", False),
-                 first=tuple(m["first"]) if m.get("first") else None)
+                 first=tuple(m["first"]) if m.get("first") else None, container=m.get("container", "array"))
     if c2.violations:
         print("code-level failure reproduced:", c2.violations[0][:2])
         return False
